@@ -1707,8 +1707,10 @@ fn c09_paths(q: &Queried, is_match: &dyn Fn(&str) -> Option<bool>, paths: &[Stri
         if is_match(p) != Some(true) {
             continue;
         }
-        for _ in 0..4 {
-            let k = rng.range(1, 3);
+        for round in 0..4 {
+            // One descendant in four lies well beneath the matched path (a bounded pattern that is
+            // wrongly judged exhaustive may still match the first few levels; round 8, C09-I).
+            let k = if round == 3 { rng.range(4, 9) } else { rng.range(1, 3) };
             let mut d = p.clone();
             let mut child = String::new();
             for n in 0..k {
